@@ -135,3 +135,36 @@ func VerifC13Split() {
 		verifrt.Cover("pieces")
 	}
 }
+
+// VerifC13FoldOrbits: for every letter whose simple-fold orbit has three or
+// more members (k/K/Kelvin sign, s/S/long s, the Greek theta, iota, sigma ...
+// families; the list c13Orbits is generated from the unicode tables at run
+// time) and every ordered pair (x, y) of one orbit: s = ASCII byte ++ x ++
+// optional ASCII byte, sub = y ++ optional ASCII byte, so that the match is
+// away from offset 0.
+func VerifC13FoldOrbits() {
+	orbit := c13Orbits[verifrt.Choice(len(c13Orbits))]
+	x := orbit[verifrt.Choice(len(orbit))]
+	y := orbit[verifrt.Choice(len(orbit))]
+	a := verifrt.Byte()
+	verifrt.Assume(a < 0x80)
+	s := string([]byte{a}) + string(x)
+	sub := string(y)
+	if verifrt.Bool2() {
+		c := verifrt.Byte()
+		verifrt.Assume(c < 0x80)
+		s += string([]byte{c})
+		d := verifrt.Byte()
+		verifrt.Assume(d < 0x80)
+		sub += string([]byte{d})
+	}
+	got := ContainsFold(s, sub)
+	want := c13RefFold(s, sub)
+	verifrt.ObserveBool("got", got)
+	verifrt.Assert(got == want, "ContainsFold differs from the fold-equal-substring definition on a multi-member fold orbit")
+	if got {
+		verifrt.Cover("contains")
+	} else {
+		verifrt.Cover("does-not-contain")
+	}
+}
